@@ -17,6 +17,7 @@ import (
 	"os"
 	"sort"
 	"strings"
+	"time"
 )
 
 type Case struct {
@@ -79,6 +80,9 @@ func writeCases(path string, p Prop, cases []Case) error {
 		if dryRun {
 			obs = make([]string, len(c.Ops))
 		} else {
+			if hungCases >= maxHungCases {
+				break // the cases after the third hang are not executed
+			}
 			obs = safeExec(p, c)
 		}
 		fmt.Fprintf(w, "begin\t%s", c.ID)
@@ -101,15 +105,42 @@ func writeCases(path string, p Prop, cases []Case) error {
 	return f.Close()
 }
 
-func safeExec(p Prop, c Case) (obs []string) {
-	defer func() {
-		if r := recover(); r != nil {
-			for len(obs) < len(c.Ops) {
-				obs = append(obs, fmt.Sprintf("panic:%v", r))
+// caseTimeout bounds one case: a library call that blocks for ever (a lock never released, a send nobody receives)
+// must not block the check. The case is abandoned (its goroutine leaks), every op gets the observation `hang`, and
+// after a few such cases the run stops: what was seen is enough for a verdict.
+var caseTimeout = 90 * time.Second
+var hungCases = 0
+
+const maxHungCases = 3
+
+func safeExec(p Prop, c Case) []string {
+	if hungCases >= maxHungCases {
+		return nil
+	}
+	done := make(chan []string, 1)
+	go func() {
+		var obs []string
+		defer func() {
+			if r := recover(); r != nil {
+				for len(obs) < len(c.Ops) {
+					obs = append(obs, fmt.Sprintf("panic:%v", r))
+				}
 			}
-		}
+			done <- obs
+		}()
+		obs = p.Exec(c)
 	}()
-	return p.Exec(c)
+	select {
+	case obs := <-done:
+		return obs
+	case <-time.After(caseTimeout):
+		hungCases++
+		obs := make([]string, len(c.Ops))
+		for i := range obs {
+			obs[i] = "hang"
+		}
+		return obs
+	}
 }
 
 func readCases(path string) ([]Case, error) {
@@ -160,6 +191,14 @@ func main() {
 		sort.Strings(ids)
 		fmt.Fprintf(os.Stderr, "unknown property %s (have %v)\n", id, ids)
 		os.Exit(2)
+	}
+	// cases of these properties run many scripted connections / timed goroutines concurrently and legitimately take
+	// tens of seconds; everywhere else a case is a handful of in-memory operations
+	switch id {
+	case "C13", "C08", "C18", "C07", "C16":
+		caseTimeout = 150 * time.Second
+	default:
+		caseTimeout = 20 * time.Second
 	}
 	fs := flag.NewFlagSet(mode, flag.ExitOnError)
 	seed := fs.Int64("seed", 1, "PRNG seed")
